@@ -462,7 +462,26 @@ func (b *Builder) Cmp(op string, x, y *Term) *Term {
 	if x == y {
 		return b.Bool(op == "<=" || op == ">=")
 	}
+	// base + c1  op  base + c2   (integer sums with a common symbolic base)
+	if x.Sort == "Int" {
+		bx, cx := splitConst(x)
+		by, cy := splitConst(y)
+		if bx == by && bx != nil {
+			return b.Cmp(op, b.IntBig(cx), b.IntBig(cy))
+		}
+	}
 	return b.mk(&Term{Op: op, Sort: "Bool", Args: []*Term{x, y}})
+}
+
+// splitConst writes an integer term as base + constant.
+func splitConst(t *Term) (*Term, *big.Int) {
+	if t.Op == "+" && len(t.Args) == 2 && t.Args[1].IntV != nil {
+		return t.Args[0], t.Args[1].IntV
+	}
+	if t.IntV != nil {
+		return nil, t.IntV
+	}
+	return t, big.NewInt(0)
 }
 
 // QuantMulti builds a quantifier with one multi-pattern.
